@@ -42,7 +42,7 @@ def hdrsets(setters, vals):
     return '{' + ', '.join('<<[setter |-> "%s", val |-> "%s"]>>' % (s, v) for s in setters for v in vals) + '}'
 
 
-SINKFAULTS = '{[kind |-> "sink", slot |-> 0, when |-> ""], [kind |-> "short", slot |-> 0, when |-> ""]}'
+SINKFAULTS = '{[kind |-> "sink", slot |-> 0, when |-> ""], [kind |-> "short", slot |-> 0, when |-> ""], [kind |-> "shortnil", slot |-> 0, when |-> ""]}'
 PRODFAULTS = '{[kind |-> "producer", slot |-> s, when |-> w] : s \\in 1..4, w \\in {"before", "after", "seek", "eof", "eofplain"}}'
 INJ = ["crlf", "crlfcrlf", "lf", "cr", "nul", "ctl", "quotes", "encword", "badutf8", "utf8", "long", "token1000", "blanks", "tabs"]
 SETTERS = ["subject", "gen", "org", "ua", "msgid", "fromname", "toname", "mdnname"]
